@@ -62,6 +62,15 @@ var perValueKinds = map[string]bool{"minLength": true, "maxLength": true, "exact
 	"minInclusive": true, "minExclusive": true, "maxInclusive": true, "maxExclusive": true, "datatype": true,
 	"lessThanProperty": true, "lessThanOrEqualsToProperty": true, "equalsToProperty": true, "disjointWithProperty": true}
 
+func hasNonInteger(vs []ast.Value) bool {
+	for _, v := range vs {
+		if isNumber(v) && !isIntegral(v) {
+			return true
+		}
+	}
+	return false
+}
+
 // ClassOf returns the class spec of a program, or nil when it has none.
 func ClassOf(p Program) *ClassSpec {
 	if len(p.Validations) != 1 {
@@ -77,11 +86,17 @@ func ClassOf(p Program) *ClassSpec {
 				if neg {
 					pol = "neg"
 				}
+				kind := x.Kind
+				if kind == "in" && (x.FloatData || hasNonInteger(x.Values)) {
+					// membership among numbers that are not integers is a class of its own: the
+					// generated comparison goes through a textual form of the numbers
+					kind = "in-non-integer"
+				}
 				switch len(via) {
 				case 0:
-					found = append(found, ClassSpec{x.Kind, x.Path, x.Other, pol, nil})
+					found = append(found, ClassSpec{kind, x.Path, x.Other, pol, nil})
 				case 1:
-					found = append(found, ClassSpec{x.Kind, x.Path, x.Other, pol, via[0]})
+					found = append(found, ClassSpec{kind, x.Path, x.Other, pol, via[0]})
 				default:
 					found = append(found, ClassSpec{"deeply-quantified", nil, nil, "", nil})
 				}
